@@ -20,7 +20,7 @@ pub fn run(ctx: &mut Ctx) {
     rt.block_on(async {
         let mut w = world::world().await;
         if let Some(lines) = ctx.replay.clone() {
-            if lines.iter().any(|l| l.starts_with("c10 quorum") || l.starts_with("c10 exec")) { scen::run_coordinator_boundaries(ctx, &mut w).await; }
+            if lines.iter().any(|l| l.starts_with("c10 quorum") || l.starts_with("c10 exec") || l.starts_with("c10 setconf")) { scen::run_coordinator_boundaries(ctx, &mut w).await; }
             else if let Some(ops) = scen::parse_replay(&lines) { scen::run_scenario(ctx, &mut w, &ops).await; }
         } else {
             for ops in scen::scripted() { scen::run_scenario(ctx, &mut w, &ops).await; }
